@@ -91,7 +91,7 @@ def build_dir(entries, chunk_size, density, with_index=True, max_per_chunk=None)
     return chunks, index_root, depth, 0, npmgl - 1
 
 def build(files0, files1=(), rng=None, version=3, chunk_size=4096, density=2, with_index=True, wbits=16, reset_frames=2,
-          rt_entry_size=8, with_rtable=True, with_spaninfo=True, control_version=2, lang=0x409, max_per_chunk=None, dirs=(), pad_to_reset=True, content_last=True, lzx_match_p=0.5, rt_slack=0):
+          rt_entry_size=8, with_rtable=True, with_spaninfo=True, control_version=2, lang=0x409, max_per_chunk=None, dirs=(), pad_to_reset=True, content_last=True, lzx_match_p=0.5, rt_slack=0, gaps=(0, 0, 0)):
     """files0: [(name, data)] stored uncompressed; files1: [(name, length)] stored in the LZX section (content drawn by the generator).
     returns (chm bytes, expected {name: (section, offset, length, data)})"""
     sec0 = b""; entries = []; expect = {}
@@ -131,9 +131,13 @@ def build(files0, files1=(), rng=None, version=3, chunk_size=4096, density=2, wi
     hs1 = struct.pack("<4sIIIIIIIIIiII", b"ITSP", 1, 0x54, 0x0A, chunk_size, density, depth, index_root, first, last, -1, len(chunks), lang) + GUIDS[:16] + struct.pack("<Iiii", 0x54, -1, -1, -1)
     dirbytes = hs1 + b"".join(chunks)
     hdrlen = 0x38 + (0x28 if version >= 3 else 0x20)
-    off_hs0 = hdrlen; off_hs1 = off_hs0 + 0x18; off_cs0 = off_hs1 + len(dirbytes)
+    # the header says where its two sections and (version 3) the content start: they need not be packed back to back
+    g0, g1, g2 = gaps
+    if version < 3: g2 = 0          # before version 3 the content follows the last chunk by definition
+    off_hs0 = hdrlen + g0; off_hs1 = off_hs0 + 0x18 + g1; off_cs0 = off_hs1 + len(dirbytes) + g2
     flen = off_cs0 + len(sec0)
     head = struct.pack("<4sIIIII", b"ITSF", version, hdrlen + 0x18, 1, 0x12345678, lang) + GUIDS
     hst = struct.pack("<QQQQ", off_hs0, 0x18, off_hs1, len(dirbytes)) + (struct.pack("<Q", off_cs0) if version >= 3 else b"")
     hs0 = struct.pack("<IIQII", 0x1FE, 0, flen, 0, 0)
-    return head + hst + hs0 + dirbytes + sec0, expect
+    junk = lambda n: bytes(rng.randrange(256) for _ in range(n))
+    return head + hst + junk(g0) + hs0 + junk(g1) + dirbytes + junk(g2) + sec0, expect
